@@ -61,11 +61,13 @@ def run():
         raise ExtractError("canUpdateIfNewer initial value")
     # 3 provideValue
     pv = function_body(task, r"virtual\s+void\s+provideValue\s*\([^)]*\)\s*override")
-    m = re.search(r"if\s*\(((?:\s*!value\.is\w+\(\)\s*(?:&&)?)+)\)\s*\{\s*shouldSkip\s*=\s*true\s*;\s*if\s*\(\s*value\.is(\w+)\(\)\s*\)\s*\{\s*hasMissingInput\s*=\s*true\s*;", pv)
+    m = re.search(r"if\s*\(((?:\s*!value\.is\w+\(\)\s*(?:&&)?)+)\)\s*\{\s*shouldSkip\s*=\s*true\s*;\s*(canUpdateIfNewer\s*=\s*false\s*;\s*)?"
+                  r"if\s*\(\s*value\.is(\w+)\(\)\s*\)\s*\{\s*hasMissingInput\s*=\s*true\s*;", pv)
     if not m:
         raise ExtractError("provideValue: skip test shape")
     ok_kinds = re.findall(r"!value\.is(\w+)\(\)", m.group(1))
-    missing_kind = m.group(2)
+    bad_input_no_shortcut = m.group(2) is not None
+    missing_kind = m.group(3)
     for k in ok_kinds + [missing_kind]:
         if k not in KNOWN_KINDS:
             raise ExtractError("provideValue: unknown kind " + k)
@@ -143,6 +145,27 @@ def run():
         raise ExtractError("executeCommand: failed completions are not (FailedCommand, force)")
     if not re.search(r"if\s*\(\s*result\.status\s*!=\s*ProcessStatus::Succeeded\s*\)", ex):
         raise ExtractError("executeCommand: process status test")
+    # 7b discovered dependencies: every entry of the depfile whose path normalises is handed to the engine
+    if len(re.findall(r"if\s*\(\s*!processDiscoveredDependencies\(ti\)\s*\)", ex)) != 1:
+        raise ExtractError("executeCommand: processDiscoveredDependencies is not called once after a successful command")
+    pd = function_body(task, r"bool\s+processDiscoveredDependencies\s*\(\s*core::TaskInterface\s+ti\s*\)")
+    if not re.search(r"case\s+ninja::Command::DepsStyleKind::None\s*:\s*return\s+true\s*;", pd):
+        raise ExtractError("processDiscoveredDependencies: DepsStyleKind::None")
+    if not re.search(r"case\s+ninja::Command::DepsStyleKind::GCC\s*:\s*\{\s*auto\s+bufferOrError\s*=\s*util::readFileContents\(command->getDepsFile\(\)\)\s*;", pd):
+        raise ExtractError("processDiscoveredDependencies: the GCC style reads command->getDepsFile()")
+    if not re.search(r"core::MakefileDepsParser\(\s*bufferOrError\.get\(\)->getBuffer\(\)\s*,\s*actions\s*,\s*false\s*\)\.parse\(\)\s*;\s*return\s+actions\.numErrors\s*==\s*0\s*;", pd):
+        raise ExtractError("processDiscoveredDependencies: parse call")
+    ad = nows(function_body(pd, r"virtual\s+void\s+actOnRuleDependency\s*\([^)]*\)\s*override"))
+    pre_ad = ("SmallString<256>absPathTmp=unescapedWord;if(!llbuild::ninja::Manifest::normalize_path(workingDirectory,absPathTmp)){return;}"
+              "StringRefpath=absPathTmp;")
+    call_ad = "ti.discoveredDependency(path);"
+    if not (ad.startswith(pre_ad) and ad.endswith(call_ad) and ad.count("discoveredDependency") == 1):
+        raise ExtractError("actOnRuleDependency: unexpected shape: " + ad[:200])
+    # anything between the normalisation and the call is a condition under which an entry is NOT recorded
+    discovered_unconditional = ad == pre_ad + call_ad
+    for other in ("actOnRuleStart", "actOnRuleEnd"):
+        if nows(function_body(pd, r"virtual\s+void\s+%s\s*\([^)]*\)\s*override" % other)) != "":
+            raise ExtractError("DepsActions::%s is not empty" % other)
     # 8 buildCommandIsResultValid guards
     m = re.search(r"static\s+bool\s+buildCommandIsResultValid\s*\(([^)]*)\)\s*\{", src)
     if not m:
@@ -212,6 +235,8 @@ def run():
          "def okInputKinds : List Kind := [%s]" % ", ".join("." + lc(k) for k in ok_kinds),
          "/-- `provideValue`: the kind that additionally sets `hasMissingInput` -/",
          "def missingInputKind : Kind := .%s" % lc(missing_kind),
+         "/-- `provideValue`: a failed / skipped / missing input also clears `canUpdateIfNewer` (F43) -/",
+         "def badInputDisablesUpdateIfNewer : Bool := %s" % b(bad_input_no_shortcut),
          "/-- `provideValue`: `if (outputInfo.modTime <op> newestModTime) newestModTime = outputInfo.modTime` -/",
          "def newestCmp : Cmp := .%s" % newest_cmp,
          "/-- `canUpdateIfNewerWithResult`: the shortcut is refused when `outputInfo.modTime <op> newestModTime` -/",
@@ -233,6 +258,8 @@ def run():
          "def decisionOrder : List Decision := [%s]" % ", ".join("." + d for d in decision_order),
          "/-- `ti.complete(result, /*ForceChange=*/!command->hasRestatFlag())` -/",
          "def forceIsNotRestat : Bool := %s" % b(force_not_restat),
+         "/-- `DepsActions::actOnRuleDependency`: nothing stands between the normalisation of a depfile entry and `ti.discoveredDependency` -/",
+         "def discoveredUnconditional : Bool := %s" % b(discovered_unconditional),
          "/-- guards of `buildCommandIsResultValid` in source order (each one returns false) -/",
          "def validGuards : List Guard := [%s]" % ", ".join("." + g for g in guards),
          "/-- input rules are registered under the key they are requested (and stored) under -/",
